@@ -22,7 +22,8 @@ RULE = ("Names: grammar-generated valid names of all three forms (service, insta
         "str/bytes keys, str/bytes/None/empty values, items up to 255 bytes, duplicate keys after normalisation, plus a sweep over "
         "every item length 1..255 (key-only, key=, key=value; alone, first, last) and every key/value byte value; encoded by "
         "ServiceInfo, decoded by the library and by an independent RFC 6763 section 6 parser, and round-tripped through the wire "
-        "codec. Distinct = (rule-violation set, strict, form) and (key type, value type, size bucket) classes.")
+        "codec; one long-lived description object is also handed every TXT value of the run as a received TXT record and its text / "
+        "properties / decoded_properties views, read in varying order, must equal those of a fresh object. Distinct = (rule-violation set, strict, form) and (key type, value type, size bucket) classes.")
 ASSUMPTIONS = ["keys containing '=' or empty keys, and items longer than 255 bytes, are outside the quantifier"]
 EXHAUSTIVE = {"quick": False, "thorough": False}
 
@@ -32,7 +33,8 @@ CONTROL = re.compile(r"[\x00-\x1f\x7f]")
 def floors(tier):
     q = tier == "quick"
     return {"c19.name_verdict": 400000 if q else 15000000, "c19.name_exception": 500000 if q else 20000000,
-            "c19.txt_independent": 30000 if q else 2000000, "c19.txt_library": 30000 if q else 2000000}
+            "c19.txt_independent": 30000 if q else 2000000, "c19.txt_library": 30000 if q else 2000000,
+            "c19.txt_views": 30000 if q else 2000000}
 
 
 def plan(tier, seed):
@@ -464,13 +466,60 @@ def check_props(p: Dict[Any, Any], tag: str, res: Result) -> None:
             if back != want_lib:
                 res.violation("c19.txt_library", "properties_differ", "after wire: %r expected %r" % (list(back.items())[:5], list(want_lib.items())[:5]),
                               {"path": "wire"}, replay)
+    check_live_views(text, res, replay)
     res.cls("txt", tag[:60])
     if res.evaluations % 499 == 3:
         res.sample({"props": replay["props"][:4], "text_hex": text[:40].hex()})
 
 
+_LIVE: Dict[str, Any] = {}
+
+
+def check_live_views(text: bytes, res: Result, replay: Dict[str, Any]) -> None:
+    """One long-lived description object is handed every TXT value of the run as a received TXT record (the way a lookup or a
+    browser's info object learns a change); after each, its three views - text, properties, decoded_properties, read in a
+    varying order, the decoded view sometimes read beforehand - must be those of a fresh object built from the same bytes."""
+    from zeroconf import DNSText, ServiceInfo, current_time_millis
+    from zeroconf._updates import RecordUpdate
+    type_ = "_http._tcp.local."
+    name = "inst." + type_
+    live = _LIVE.get("info")
+    if live is None:
+        live = _LIVE["info"] = ServiceInfo(type_, name, 80, properties={"first": "1"}, server="h.local.")
+        _LIVE["n"] = 0
+    _LIVE["n"] += 1
+    mode = _LIVE.get("force", _LIVE["n"] % 8)
+    res.mon("c19.txt_views")
+    try:
+        if mode & 1:
+            live.decoded_properties          # the decoded view exists before the change
+        if mode & 4:
+            live.properties
+        now = current_time_millis()
+        live.async_update_records(None, now, [RecordUpdate(DNSText(name, 16, 1, 4500, text, created=now), None)])
+        fresh = ServiceInfo(type_, name, 80, properties=text, server="h.local.")
+        if mode & 2:
+            got_dec, got_props = live.decoded_properties, live.properties
+        else:
+            got_props, got_dec = live.properties, live.decoded_properties
+        want_props, want_dec = fresh.properties, fresh.decoded_properties
+    except Exception as e:
+        res.violation("c19.txt_views", "view_raised", "long-lived object: %r" % (e,), {"exc_type": type(e).__name__}, replay)
+        _LIVE.pop("info", None)
+        return
+    if live.text != text:
+        res.violation("c19.txt_views", "text_not_updated", "long-lived object keeps text %r after a TXT record %r" % (live.text[:40], text[:40]), {}, replay)
+    elif got_props != want_props or list(got_props) != list(want_props):
+        res.violation("c19.txt_views", "stale_properties", "long-lived object: .properties %r, a fresh object from the same TXT bytes has %r (read order %d)" % (
+            list(got_props.items())[:4], list(want_props.items())[:4], mode), {"view": "properties"}, dict(replay, live_mode=mode))
+    elif got_dec != want_dec:
+        res.violation("c19.txt_views", "stale_properties", "long-lived object: .decoded_properties %r, a fresh object from the same TXT bytes has %r (read order %d)" % (
+            list(got_dec.items())[:4], list(want_dec.items())[:4], mode), {"view": "decoded_properties"}, dict(replay, live_mode=mode))
+
+
 def run_shard(spec):
     res = Result()
+    _LIVE.clear()
     rng = rng_for("c19", spec["seed"], spec["shard"])
     for i in range(spec["per"]):
         r = rng.random()
@@ -512,5 +561,9 @@ def replay(blob):
     else:
         import ast
         p = {ast.literal_eval(k): ast.literal_eval(v) for k, v in blob["props"]}
-        check_props(p, "replay", res)
+        for mode in range(8):       # the long-lived object's read order is part of the case
+            _LIVE.clear()
+            _LIVE["force"] = mode
+            check_props(p, "replay", res)
+        _LIVE.clear()
     return res
